@@ -258,7 +258,7 @@ func (m *Manager) closeGeneration() uint64 {
 func (m *Manager) open(closeGen uint64) {
 	m.debug.Log("Opening")
 	err := m.connect(false, closeGen)
-	if err != nil {
+	if err != nil && err != errClosedWhileConnecting {
 		m.cleanup()
 		m.maybeReconnectOnOpen(closeGen)
 	}
